@@ -183,6 +183,21 @@ Lemma primes_are_documented : forall c,
   prime c = doc_prime c /\ prime_size c = bit_size (doc_prime c) /\ doc_bits c = Some (prime_size c).
 Proof. intro c. destruct c; vm_compute; repeat split; reflexivity. Qed.
 
+(* the strict reading of the sources: every anchored item and every file
+   inventory matched its template completely; the decimal literals read from
+   Curve::prime() are the executed primes; prime_size() is the bit length of
+   the stored prime (the body of UsefulConstants::prime_size is `self.prime.bits()`) *)
+Lemma sources_recognised :
+  map fst source_shape = anchored_items /\
+  Forall (fun e => snd e = true) source_shape /\
+  (forall c, assoc (variant_name c) source_prime_literals = Some (prime c)) /\
+  (forall c, prime_size c = bit_size (prime c)).
+Proof.
+  split; [vm_compute; reflexivity|].
+  split; [repeat constructor|].
+  split; intro c; destruct c; vm_compute; reflexivity.
+Qed.
+
 Lemma prime_size_default : prime_size Bn254 = 254.
 Proof. vm_compute. reflexivity. Qed.
 
